@@ -15,7 +15,7 @@ import (
 //   - for ScheduleJob, DeleteJob, PauseJob, ResumeJob, Clear and fetchAndReschedule: a Reset() call exists, it is
 //     reached only through the success branch of the method's last queue mutation (which precedes it in the
 //     source), and the whole thing happens between queueLocker.Lock() and a deferred Unlock();
-//   - the loop body is Size -> switch{… timer.Reset(…); default: timer.Reset(calculateNextTick())} -> select, the
+//   - the loop body is Size (since the repair of F4: the back-off test, then Size unless backing off) -> switch{… timer.Reset(…); default: timer.Reset(calculateNextTick())} -> select, the
 //     interrupt branch falls through to the next iteration, and calculateNextTick reads queue.Head().
 
 func init() { register(extractWakeup, renderWakeup) }
@@ -420,17 +420,62 @@ func wkLoopOrder(p *pkgInfo) ([]string, bool) {
 					continue
 				}
 			}
+			// the back-off test that guards the Size() call: `backingOff := time.Now().Before(retryAt)`
+			if s.Tok == token.DEFINE && len(s.Lhs) == 1 && len(s.Rhs) == 1 {
+				if id, ok := s.Lhs[0].(*ast.Ident); ok && id.Name == "backingOff" && strings.ReplaceAll(wkExpr(s.Rhs[0]), " ", "") == "time.Now().Before(retryAt)" {
+					order = append(order, "backingOff")
+					continue
+				}
+			}
 			order = append(order, "?assign")
+		case *ast.DeclStmt:
+			// `var queueSize int` / `var err error`: zero-initialised locals of the iteration, no effect
+			if gd, ok := s.Decl.(*ast.GenDecl); ok && gd.Tok == token.VAR {
+				plain := true
+				for _, sp := range gd.Specs {
+					if vs, ok := sp.(*ast.ValueSpec); !ok || len(vs.Values) != 0 {
+						plain = false
+					}
+				}
+				if plain {
+					continue
+				}
+			}
+			order = append(order, "?decl")
+		case *ast.IfStmt:
+			// `if !backingOff { queueSize, err = sched.queue.Size() }`: the queue is asked unless the loop is backing off (C15)
+			if not, ok := s.Cond.(*ast.UnaryExpr); ok && not.Op == token.NOT && s.Init == nil && s.Else == nil && len(s.Body.List) == 1 {
+				if id, ok := not.X.(*ast.Ident); ok && id.Name == "backingOff" {
+					if as, ok := s.Body.List[0].(*ast.AssignStmt); ok && len(as.Rhs) == 1 {
+						if _, ok := wkCall(as.Rhs[0], "sched", "queue", "Size"); ok {
+							order = append(order, "Size unless backingOff")
+							continue
+						}
+					}
+				}
+			}
+			order = append(order, "?if")
 		case *ast.SwitchStmt:
 			allReset, defaultTick := s.Tag == nil, false
 			for _, c := range s.Body.List {
 				cc := c.(*ast.CaseClause)
 				rs := 0
+				tickVar := "" // `nextTick, headErr := sched.calculateNextTick()` as a statement of the default case
 				for _, b := range cc.Body {
+					if as, ok := b.(*ast.AssignStmt); ok && cc.List == nil && as.Tok == token.DEFINE && len(as.Lhs) == 2 && len(as.Rhs) == 1 {
+						if _, ok := wkCall(as.Rhs[0], "sched", "calculateNextTick"); ok {
+							if id, ok := as.Lhs[0].(*ast.Ident); ok {
+								tickVar = id.Name
+							}
+						}
+					}
 					if call, ok := wkCall(b, "timer", "Reset"); ok && len(call.Args) == 1 {
 						rs++
 						if cc.List == nil {
 							if _, ok := wkCall(call.Args[0], "sched", "calculateNextTick"); ok {
+								defaultTick = true
+							}
+							if id, ok := call.Args[0].(*ast.Ident); ok && tickVar != "" && id.Name == tickVar {
 								defaultTick = true
 							}
 						}
@@ -513,7 +558,9 @@ func wkLoopOrder(p *pkgInfo) ([]string, bool) {
 			order = append(order, fmt.Sprintf("?%T", st))
 		}
 	}
-	if len(order) == 0 || order[0] != "Size" {
+	sizeFirst := len(order) > 0 && order[0] == "Size" ||
+		len(order) > 1 && order[0] == "backingOff" && order[1] == "Size unless backingOff"
+	if !sizeFirst {
 		rereads = false
 	}
 	// the interrupt channel is received from nowhere else
